@@ -101,6 +101,11 @@ Report == (FromFile /\ cls # <<>>) => PrintT(<<"DOMAIN", tid, VerdictOf, Portabl
 LNext == ScannerStep \/ Feed \/ ParserStep \/ Classify
 LSpec == LInit /\ [][LNext]_<<vars, pvars, tid, cls>>
 
+\* the scanner's H, judged once per input (in the state the scan leaves behind), not again at every parser step
+JustScanned == pc = "end" /\ st = "stream_start"
+LP_TokenMarks == JustScanned => TokenMarksOk
+LP_ErrorMarks == JustScanned => H_ErrorMarks
+LP_TokenGrammar == JustScanned => H_TokenGrammar
 \* H (C03) for the composition: neither stage ever fails with anything but a YAML error
 H_PipeYamlErrorOnly == res # "crash" /\ st # "crash"
 \* the parser's own H (C09) holds on every token stream the scanner can produce
